@@ -253,6 +253,21 @@ def gen(seed, idx, tier, ctx):
         fu.insert(0, ('split', same, case['opts']))
     else:
         fu.insert(0, ('parse', same, None))
+    if rng.random() < 0.5:
+        # a leaked depth counter or a lowered limit leaves room for flat
+        # statements: also follow up with nesting that is ordinary at the
+        # default limit (well inside it, some of it beyond the library's own
+        # documented grouping bound, where the reference raises too)
+        fc = rng.choice(corpus.CONSTRUCTS)
+        fd = rng.choice([12, 25, 40, 60, 90] if fc in CHEAP
+                        else [8, 15, 25, 40])
+        fa = rng.choice(['parse', 'format', 'split'])
+        fu.insert(rng.randrange(len(fu) + 1),
+                  (fa, corpus.nest(fc, fd),
+                   {'reindent': True} if fa == 'format' else None))
+    if rng.random() < 0.15:
+        # what one failure leaves behind may only add up over several
+        calls = calls + [dict(c) for c in calls[:1]] * rng.choice([1, 2, 3])
     return {'check': CHECK, 'seed': seed, 'idx': idx, 'state': state,
             're_cold': state == 'fresh' and rng.random() < 0.15,
             'calls': calls, 'hstar': hstar, 'mode': mode,
